@@ -238,6 +238,9 @@ def search_parsing(sl):
             and (not with_pit or parsed["pit_id"] == full["pit_id"]))
     comp = runner.CompositeAggExtractor()(pyio.BytesIO(text), with_pit, ["outer", "comp"], hits_total)
     observe("composite after_key equals the fully parsed after_key", comp["after_key"] == full["aggregations"]["outer"]["comp"].get("after_key"))
+    observe("composite: hits total as in the full parse (object or plain number)", comp["hits.total.value"] == exp_total)
+    observe("composite: hits relation", comp["hits.total.relation"] == (total["relation"] if (isinstance(total, dict) and hits_total is None) else "eq"))
+    observe("composite: took / timed_out / pit_id", comp["took"] == full["took"] and comp["timed_out"] == full["timed_out"] and (not with_pit or comp["pit_id"] == full["pit_id"]))
 
 
 # ------------------------------------------------------------------------------------------------------------------
